@@ -212,6 +212,21 @@ def cases(ctx):
         out.append({"kind": "interpreter-state", "rom": "low", "src": probe, "files": {},
                     "history": [{"src": h, "files": {}, "rom": "low"} for h in hist], "count_empty": True,
                     "spec": {"t": "twin", "labels": True}})
+    # labels defined inside applied macros (their names in the label listing), after other programs applied macros;
+    # non-ASCII text in included files and tables, after a program that read a file which is not valid UTF-8
+    macro_labels = "*=0x008000\n.macro zz_w(n) {\nzz_loop:\ndex\nbne zz_loop\n.db n\n}\nzz_w(1)\nzz_w(2)\n{\nzz_w(3)\n}\n"
+    other_macros = "*=0x018000\n.macro zz_o(a) {\nzz_in:\n.db a\n}\n" + "zz_o(1)\n" * 5
+    accents = {"tt.tbl": {"tbl": [("\u00e9", [0x99]), ("c", [1]), ("a", [2]), ("f", [3]), ("\u00e0", [0x98])]},
+               "inc.s": ".text 'caf\u00e9 d\u00e9j\u00e0'\n.ascii 'caf\u00e9'\nzz_after:\n"}
+    accent_probe = "*=0x008000\n.table 'tt.tbl'\n.include 'inc.s'\n.dl zz_after\n"
+    latin = {"old.s": list(b"; caf\xe9 in an old editor\nnop\n")}
+    for hist, probe, files in (([(other_macros, {})], macro_labels, {}), ([(macro_labels, {})], macro_labels, {}),
+                               ([(macro_labels, {}), (other_macros, {})], macro_labels, {}),
+                               ([("*=0x008000\n.include 'old.s'\nrts\n", latin)], accent_probe, accents),
+                               ([("*=0x008000\n.include 'old.s'\n", latin), (accent_probe, accents)], accent_probe, accents)):
+        out.append({"kind": "names-and-encodings", "rom": "low", "src": probe, "files": files,
+                    "history": [{"src": h, "files": f, "rom": "low"} for h, f in hist], "count_empty": True,
+                    "spec": {"t": "twin", "labels": True}})
     for i in range(n):
         history = []
         for _ in range(rng.randrange(1, 9)):
